@@ -687,7 +687,7 @@ func (r *refinementNumber) assertConsistentBounds() {
 		return // If only one bound is constrained then there's nothing to be inconsistent with
 	}
 	var ok Value
-	if r.minInc != r.maxInc {
+	if !(r.minInc && r.maxInc) {
 		ok = r.min.LessThan(r.max)
 	} else {
 		ok = r.min.LessThanOrEqualTo(r.max)
